@@ -272,7 +272,7 @@ def oracle(ctx: Ctx, sc: dict, tr: dict) -> dict:
 
     # every handler selected for the outstanding change completed against the final essential state
     if not f.blind and f.fin_cycles:
-        c0 = next((c for c in f.fin_cycles if c.get("cause") is not None), None)
+        c0 = next((c for c in f.fin_cycles if c.get("pcc") is not None), None)   # the first real pass on the final state
         if c0 is not None:
             base0 = py_base(c0["body"])
             outstanding = "create" if base0 is None else ("update" if base0 != f.ess else None)
